@@ -672,3 +672,33 @@ V("c20-eq-flatten-loop", ["C20", "C03", "C12"], "E", UTL, "    return dict(_remo
         flattened[key] = value
 
     return flattened''')
+SLS = "ceos_alos2/sar_leader/structure.py"
+_PEEK = '''from ceos_alos2.common import record_preamble
+
+
+class NextRecord(Construct):
+    """zero-width look at the type of the next record"""
+
+    def __init__(self, record_type):
+        super().__init__()
+        self.record_type = record_type
+
+    def _parse(self, stream, context, path):
+        preamble = record_preamble._parsereport(stream, context, path)
+        if preamble.record_type != self.record_type:
+%s            return False
+        stream_seek(stream, -record_preamble.sizeof(), 1, path)
+        return True
+
+    def _build(self, obj, stream, context, path):
+        raise NotImplementedError
+
+    def _sizeof(self, context, path):
+        return 0
+
+
+sar_leader_record = Struct('''
+_PEEK_MORE = [(SLS, "from construct import Struct, this", "from construct import Construct, Struct, stream_seek, this"),
+              (SLS, '    "platform_position" / platform_position_record,', '    NextRecord(30),\n    "platform_position" / platform_position_record,')]
+V("c05-peek-not-rewound", "C05", "M", SLS, "sar_leader_record = Struct(", _PEEK % "", "C05-F11", more=_PEEK_MORE)
+V("c05-eq-peek-rewound", ["C05", "C03", "C16"], "E", SLS, "sar_leader_record = Struct(", _PEEK % "            stream_seek(stream, -record_preamble.sizeof(), 1, path)\n", more=_PEEK_MORE)
